@@ -287,3 +287,223 @@ func runC02Long(c *Ctx) {
 		}
 	}
 }
+
+// ---- C13 on long indexes: order, Reverse, Limit, One after every step of every
+// insertion sequence (ties in runs of up to `length` equal values) ----------------
+
+func longOrderSweep(c *Ctx, cfg Cfg, length, idx int) []Violation {
+	var viol []Violation
+	digits := make([]int, length)
+	x := idx
+	for i := 0; i < length; i++ {
+		digits[i] = x % 3
+		x /= 3
+	}
+	seqName := fmt.Sprint(digits)
+	fail := func(sig, what string) {
+		if len(viol) < 3 {
+			viol = append(viol, Violation{Sig: "C13|long|" + sig, What: what + "\n  insertion sequence of values " + seqName + " under " + cfg.String(), Cfg: cfg})
+		}
+	}
+	ex := vrt.Run(vrt.Config{Sequential: true, MaxTicks: 50}, func() {
+		setGlobals(cfg)
+		fsys := vfs.New()
+		vfs.Cur = fsys
+		db := sod.Open(dbRoot)
+		if err := db.Create(&Wide{}, cfg.Schema(&Wide{})); err != nil {
+			fail("create", "Create failed: "+err.Error())
+			return
+		}
+		nobj := 0
+		ids := func(objs []sod.Object) []string {
+			out := make([]string, len(objs))
+			for i, o := range objs {
+				out[i] = o.UUID()
+			}
+			return out
+		}
+		verify := func(after string) bool {
+			for _, field := range []string{"A", "B"} {
+				for _, op := range []string{"=", "!=", "<", "<=", ">", ">="} {
+					for _, p := range []int{0, 1, 2, 3} {
+						var probe interface{} = p
+						if field == "B" {
+							probe = wideB(p)
+						}
+						mk := func(chain bool) *sod.Search {
+							if chain {
+								return db.Search(&Wide{}, "U", ">=", -5).And(field, op, probe)
+							}
+							return db.Search(&Wide{}, field, op, probe)
+						}
+						for _, chain := range []bool{false, true} {
+							q := fmt.Sprintf("Search(%s %s %v)", field, op, probe)
+							if chain {
+								q = "Search(U >= -5).And(" + q[7:]
+							}
+							base, err := mk(chain).Collect()
+							if err != nil {
+								fail("collect-err", fmt.Sprintf("%s: %s failed: %v", after, q, err))
+								return false
+							}
+							for i := 1; i < len(base); i++ {
+								if base[i].(*Wide).A > base[i-1].(*Wide).A {
+									fail("order|"+field+op, fmt.Sprintf("%s: %s is not in non-increasing order of %s", after, q, field))
+									return false
+								}
+							}
+							rev, err := mk(chain).Reverse().Collect()
+							if err != nil || len(rev) != len(base) {
+								fail("reverse-size|"+field+op, fmt.Sprintf("%s: %s.Reverse() returns %d objects (%v), the plain search %d", after, q, len(rev), err, len(base)))
+								return false
+							}
+							for i := 1; i < len(rev); i++ {
+								if rev[i].(*Wide).A < rev[i-1].(*Wide).A {
+									fail("reverse-order|"+field+op, fmt.Sprintf("%s: %s.Reverse() is not in non-decreasing order of %s", after, q, field))
+									return false
+								}
+							}
+							m := len(base)
+							for _, lim := range []int{0, 1, 2, m - 1, m, m + 1} {
+								if lim < 0 {
+									continue
+								}
+								want := lim
+								if want > m {
+									want = m
+								}
+								got, err := mk(chain).Limit(uint64(lim)).Collect()
+								if err != nil || fmt.Sprint(ids(got)) != fmt.Sprint(ids(base[:want])) {
+									fail("limit|"+field+op, fmt.Sprintf("%s: %s.Limit(%d) does not return the first %d of the %d matches in order (%d objects, err %v)", after, q, lim, want, m, len(got), err))
+									return false
+								}
+								gotr, err := mk(chain).Reverse().Limit(uint64(lim)).Collect()
+								if err != nil || fmt.Sprint(ids(gotr)) != fmt.Sprint(ids(rev[:want])) {
+									fail("reverse-limit|"+field+op, fmt.Sprintf("%s: %s.Reverse().Limit(%d) does not return the first %d of the %d matches of the reversed order (%d objects, err %v)", after, q, lim, want, m, len(gotr), err))
+									return false
+								}
+								gotl, err := mk(chain).Limit(uint64(lim)).Reverse().Collect()
+								if err != nil || fmt.Sprint(ids(gotl)) != fmt.Sprint(ids(rev[:want])) {
+									fail("limit-reverse|"+field+op, fmt.Sprintf("%s: %s.Limit(%d).Reverse() does not return the first %d of the %d matches of the reversed order (%d objects, err %v)", after, q, lim, want, m, len(gotl), err))
+									return false
+								}
+							}
+							one, err := mk(chain).One()
+							switch {
+							case m == 0 && !sod.IsNoObjectFound(err):
+								fail("one-empty|"+field+op, fmt.Sprintf("%s: %s.One() on no match returns (%v, %v)", after, q, one, err))
+								return false
+							case m > 0 && (err != nil || one.UUID() != base[0].UUID()):
+								fail("one|"+field+op, fmt.Sprintf("%s: %s.One() is not the first element of Collect (err %v)", after, q, err))
+								return false
+							}
+							if m > 0 {
+								oner, err := mk(chain).Reverse().One()
+								if err != nil || oner.UUID() != rev[0].UUID() {
+									fail("reverse-one|"+field+op, fmt.Sprintf("%s: %s.Reverse().One() is not the first element of the reversed order (err %v)", after, q, err))
+									return false
+								}
+							}
+							c.Count("evaluations", 1)
+						}
+					}
+				}
+			}
+			var idxv []int
+			if err := db.AssignIndex(&Wide{}, "A", &idxv); err != nil || len(idxv) != nobj {
+				fail("assignindex", fmt.Sprintf("%s: AssignIndex(A) returns %d values (%v) for %d objects", after, len(idxv), err, nobj))
+				return false
+			}
+			for i := 1; i < len(idxv); i++ {
+				if idxv[i] > idxv[i-1] {
+					fail("assignindex-order", fmt.Sprintf("%s: AssignIndex(A) = %v is not in non-increasing order", after, idxv))
+					return false
+				}
+			}
+			return true
+		}
+		var uuids []string
+		vals := map[string]int{}
+		for i, v := range digits {
+			o := &Wide{A: v, B: wideB(v), U: v, Seq: i}
+			if err := db.InsertOrUpdate(o); err != nil {
+				fail("insert", fmt.Sprintf("insert #%d failed: %v", i, err))
+				return
+			}
+			uuids = append(uuids, o.UUID())
+			vals[o.UUID()] = v
+			nobj++
+			if nobj >= 4 && !verify(fmt.Sprintf("after %d insertions", i+1)) {
+				return
+			}
+		}
+		for i, u := range uuids {
+			nv := (vals[u] + 1 + i%2) % 3
+			o := &Wide{A: nv, B: wideB(nv), U: nv, Seq: i}
+			o.Initialize(u)
+			if err := db.InsertOrUpdate(o); err != nil {
+				fail("update", fmt.Sprintf("update of #%d failed: %v", i, err))
+				return
+			}
+			vals[u] = nv
+		}
+		if !verify("after the insertions and an update of every object") {
+			return
+		}
+		for len(uuids) > 2 {
+			k := len(uuids) / 2
+			o := &Wide{}
+			o.Initialize(uuids[k])
+			if err := db.Delete(o); err != nil {
+				fail("delete", fmt.Sprintf("delete failed: %v", err))
+				return
+			}
+			uuids = append(uuids[:k], uuids[k+1:]...)
+			nobj--
+			if !verify(fmt.Sprintf("after updates and deletions down to %d objects", nobj)) {
+				return
+			}
+		}
+	})
+	for _, p := range ex.Panics {
+		fail("panic|"+normPanic(p.Value+" @ "+sodFrame(p.Stack)), "panic: "+p.Value+"\n"+trimStack(p.Stack))
+	}
+	if ex.Deadlock || ex.Horizon {
+		fail("stuck", "the sweep blocked")
+	}
+	return viol
+}
+
+func runC13Long(c *Ctx) {
+	maxLen := 5
+	cfgs := []Cfg{{}, {Cache: true, Index: 2}}
+	if c.Tier == "thorough" {
+		maxLen = 7
+		cfgs = append(cfgs, Cfg{Async: 2, Compress: true})
+	}
+	item := 0
+	for _, cfg := range cfgs {
+		total := 1
+		for i := 0; i < maxLen; i++ {
+			total *= 3
+		}
+		for idx := 0; idx < total; idx++ {
+			item++
+			if item%c.NShards != c.Shard {
+				continue
+			}
+			if c.Expired() {
+				c.Count("depth_incomplete", 1)
+				return
+			}
+			for _, v := range longOrderSweep(c, cfg, maxLen, idx) {
+				c.Violation(v)
+			}
+			c.Count("transitions", 3*maxLen+1)
+			c.Count("paths_replayed", 1)
+			key := fmt.Sprintf("long|%s|%d", cfg.String(), idx)
+			c.Distinct("states", key)
+			c.Distinct("distinct_nontrivial", key)
+		}
+	}
+}
